@@ -105,14 +105,18 @@ def _ref_any(var_name, new, old, ident):
 def _ref_changed(var_name, new, old, ident):
     for name in ident:
         parts = name.split(".")
-        if len(parts) < 2 or len(parts) > 3:
+        if len(parts) < 2 or len(parts) > 4 or (len(parts) == 4 and parts[2] != "old"):
             continue
         root = ".".join(parts[:2])
         if root != var_name:
             continue
         ns, na = (new or (None, {}))
         os_, oa = (old or (None, {}))
-        if len(parts) == 2 or parts[2] == "old":
+        if len(parts) == 4:
+            # `d.e.old.x`: an attribute of the previous value - the entity is watched through it like through `d.e.old`, and a change of that attribute counts as well
+            if ns != os_ or na.get(parts[3]) != oa.get(parts[3]):
+                return True
+        elif len(parts) == 2 or parts[2] == "old":
             if ns != os_:
                 return True
         elif parts[2] in STATE_METHODS:
@@ -224,7 +228,13 @@ def run(ctx):
     ctx.rule("R04.7", "the set of entities a state trigger subscribes to: watch= if given, else the names in the expression together with every any-change name", floor=10)
     watched_set_table(ctx, program, "R04.7")
 
-    ctx.rule("R04.8", "values handed to trigger expressions: event values first, then last known values / attributes, '.old' attributes from the event, None for unknown names of 2-4 parts", floor=40)
+    ctx.rule("R04.12", "every entity a watched name mentions is subscribed - also one named only through an attribute of its previous value (`d.e.old.attr`) - and released again "
+             "(State.notify_add / notify_del on permuted name sets)", floor=20)
+    from .c15 import state_unsubscribe_table
+    state_unsubscribe_table(ctx, program, "R04.12")
+
+    ctx.rule("R04.8", "values handed to trigger expressions: event values first, then last known values / attributes, '.old' attributes from the event, for any other state name its value at "
+             "the time of the event (a snapshot: a burst must not be evaluated on later values), None for unknown names of 2-4 parts", floor=40)
     var_get_table(ctx, program, "R04.8")
 
     ctx.rule("R04.9", "state trigger arguments: names of the form DOMAIN.name[.attr|.*] are any-change triggers, everything else is an expression (several are or-ed with any([...])) - same in both subsystems", floor=10)
@@ -423,10 +433,13 @@ def var_get_table(ctx, program, rid):
         for ev in (False, True):            # the event carries d.e and d.e.old
             for known in (False, True):     # a last value of d.e is recorded
                 for exists in (False, True):
+                    if exists and len(name.split(".")) not in (2, 3):
+                        continue  # State.exist() is true for names of two or three parts only
                     new_vars = DictV([(Const("d.e"), new_obj), (Const("d.e.old"), old_obj)] if ev else [])
                     heap = {"State.notify_var_last": DictV([(Const("d.e"), last_obj)] if known else []),
                             "last_de.attr": Const("last-attr"), "old_de.attr": Const("old-attr"), "new_de.attr": Const("new-attr")}
-                    pol = FlowPolicy(program, may_raise_all=False, cancel=False, summaries={"cls.exist": lambda i, n, a, k, c, o, e=exists: [(c, Const(e))]})
+                    pol = FlowPolicy(program, may_raise_all=False, cancel=False, summaries={"cls.exist": lambda i, n, a, k, c, o, e=exists: [(c, Const(e))],
+                                                                                            "cls.get": lambda i, n, a, k, c, o: [(c, Sym(("value now", a[0].v if a and isinstance(a[0], Const) else "?")))]})
                     pol.loop_unroll = 3
                     out = run_flow(program, uid, pol, args={"cls": ClassV("State"), "var_names": ListV((Const(name),), "list"), "new_vars": new_vars}, heap=heap)
                     parts = name.split(".")
@@ -442,6 +455,10 @@ def var_get_table(ctx, program, rid):
                         want = Const("old-attr")
                     elif 2 <= len(parts) <= 4 and not exists:
                         want = Const(None)
+                    elif 2 <= len(parts) <= 3:
+                        # (State.exist is true for names of two or three parts only) exists but was never notified (unchanged since the trigger started, or outside watch=): its value as of this event - left out, the
+                        # evaluator would read it from Home Assistant when the trigger task gets to run, i.e. after the later events of a burst
+                        want = Sym(("value now", name))
                     else:
                         want = "absent"
                     got = set()
